@@ -232,7 +232,8 @@ class _Between:
         la_stale = -(b["P"] * (V1 - b["V_built"])) / kT + (b["n"] + 1) * math.log(V1 / b["V_built"])
         b.update(la_true=la_true, la_stale=la_stale, V1=V1)
         lo, hi = sorted((min(0.0, la_true), min(0.0, la_stale)))
-        if hi - lo < 1e-6:
+        if hi - lo < 1e-6 or lo < -600.0:
+            # (below about -700 both exp(ln A) and the scripted uniform underflow to 0.0: nothing can be decided)
             b["decidable"] = False
             return self.inner.evaluate(context)
         b["decidable"] = True
